@@ -633,6 +633,11 @@ def form_case(ctx, form, arows, meta):
     m = ctx.driver.call("binds.model", headers=headers, rows=rows, lists=["l1", "l2"], root="data", dl="default")
     ctx.count(f"impl:{r['class']}/model:{m['outcome']}" + (":" + m["why"] if m["outcome"] == "unsupported" else ""))
     ctx.count("fragment:" + ("inside" if m["outcome"] != "unsupported" else "outside"))
+    # model-to-model: Pyxv.Binds' private process_header / process_row against Pyxv.Headers (C08/C13's model)
+    hb = ctx.driver.call("binds.headers_bridge", headers=headers, rows=rows, dl="default")
+    ctx.count("headers-bridge:" + hb["where"])
+    if not hb["ok"]:
+        ctx.mismatch("Pyxv.Binds vs Pyxv.Headers (" + hb["where"] + ")", case, "Headers", hb)
     nontrivial = False
     if r["ok"]:
         try:
